@@ -729,10 +729,15 @@ def patch_lines(
     """Applies patches to lines.  Updates lines in place."""
     # Read (and thereby check) the whole script before changing anything
     patches = list(patches)
+    # Each address refers to the lines as the commands before it have left
+    # them, so the commands are applied to a copy: a script that is refused
+    # half way leaves the caller's list as it was
+    result = list(lines)
     for (first, last, args) in patches:
-        if last > len(lines):
+        if last > len(result):
             raise ValueError("patch addresses a line beyond the end: %d" % last)
-        lines[first:last] = args
+        result[first:last] = args
+    lines[:] = result
 
 
 patchLines = function_deprecated_by(patch_lines)
